@@ -155,6 +155,21 @@ class WriterModel:
         (assumed at entry of the step, re-established by M2/M5/M8/M9): rewrite so that the guard stays linear."""
         if not isinstance(t, tuple) or not t:
             return t
+        # `a.checked_sub(b)` matched as Some(x): x is a - b
+        if t[0] == 'field' and str(t[2]) == '0' and t[1][0] == 'payload' and t[1][2] == 'Some' and term_callee_is(t[1][1], 'core::num::checked_sub') \
+                and len(t[1][1][2]) == 2:
+            return ('bin', 'Sub', self.desat(t[1][1][2][0]), self.desat(t[1][1][2][1]))
+        # `len_a.checked_add(len_b).unwrap_or(usize::MAX)`: two in-memory lengths (each <= isize::MAX) cannot overflow, the
+        # fallback is dead: it is len_a + len_b
+        if t[0] == 'phi' and len(t[1]) == 2:
+            alts = list(t[1])
+            cs = [x for x in alts if x[0] == 'const']
+            ps = [x for x in alts if x[0] == 'field' and str(x[2]) == '0' and x[1][0] == 'payload' and x[1][2] == 'Some' and
+                  term_callee_is(x[1][1], 'core::num::checked_add') and len(x[1][1][2]) == 2]
+            if len(cs) == 1 and len(ps) == 1:
+                a_, b_ = ps[0][1][1][2]
+                if self.atom(a_) in ('N', 'E') and self.atom(b_) in ('N', 'E'):
+                    return ('bin', 'Add', a_, b_)
         if getattr(self, 'derived', None):
             # a read of a derived constant field -> its constructor equation
             x = t
@@ -560,6 +575,8 @@ def rule_M4_M5_M6(m, rep, want=('M4', 'M5', 'M6'), zero_store_ok=False):
 def _is_add_of(v, m, r):
     """v == self.written(+any version) + r"""
     v = norm(v)
+    if v[0] == 'call' and isinstance(v[1], str) and v[1].endswith('::saturating_add') and len(v[2]) == 2:
+        v = ('bin', 'Add', v[2][0], v[2][1])         # written + n <= capacity (M2): cannot saturate
     if v[0] != 'bin' or v[1] not in ('Add', 'AddWithOverflow'):
         return False
     a, b = v[2], v[3]
@@ -682,6 +699,24 @@ def rule_M9(m, rep, rid='M9'):
     ok = (len(calls) == 1 and calls[0][1][1].endswith('MultiLineWriter::with_ending')
           and calls[0][1][2][0] == ('param', 1) and calls[0][1][2][1] == ('param', 2)
           and peel(calls[0][1][2][2]) == ('str', '\n'))
+    if not ok:
+        # new() and with_ending() share a private constructor helper: new() builds what with_ending(inner, cap, "\n") builds -
+        # the constructor's aggregate with `end` replaced by "\n", field by field
+        def subst(x):
+            if x == ('param', 3):
+                return ('str', '\n')
+            if isinstance(x, tuple):
+                return tuple(subst(y) for y in x)
+            return x
+        rn = ret_terms(Terms(inl(m.cad, m.new)), [0])
+        if len(rn) == 1 and list(rn)[0][0] == 'adt' and list(rn)[0][1] == MLW:
+            got = dict(list(rn)[0][3])
+            for f_, v_ in list(got.items()):
+                if f_ in m.nest.values() and norm(v_)[0] == 'adt':
+                    got.update(dict(norm(v_)[3]))
+            want = {k_: norm(subst(norm(v_))) for k_, v_ in m.ctor.items() if v_ is not None and k_ not in m.nest.values()}
+            if any(y == ('param', 3) for v_ in m.ctor.values() if v_ is not None for y in walk(norm(v_))):
+                ok = all(k_ in got and norm(got[k_]) == w_ for k_, w_ in want.items())
     rep.ob(rid, 'new-uses-newline', ok, m.new.where(),
            'new(inner, cap) = with_ending(inner, cap, "\\n")' if ok else 'MultiLineWriter::new does %s' % [fmt(c_[1]) for c_ in calls])
 
